@@ -213,6 +213,11 @@ def run (ctx):
   for n in inc:
     fs = q.fact_strs(g2, n)
     ctx.ob('R-DOM', sel, "new registrations are picked up in the pinger branch", any('self._pinger in' in f for f in fs), "under pinger in ro", (mod, n.ast), 'D4')
+  # the wake-up pipe is cleared *before* the incoming queue is drained: a registration that arrives after the last get() but before a
+  # later pong has its ping swallowed and sits in the queue until some unrelated wake-up (shared with C07)
+  hub_pong_order(ctx, repo, sel, g2, mod, 'D4')
+  from . import c07 as c07_
+  c07_.pinger_rules(ctx, repo, 'D4')
   hr = q.find_method(repo, hub, '_return', 'C06'); ctx.analysed(hr)
   iv = q.cfg_of(hr).interval(_sched_weight(hub))
   ctx.ob('R-EFFECT', hr, "the hub resumes a task by scheduling it exactly once with its result", iv == (1, 1) and any(norm(t) == hr.params[1] + '.rv' for t, v, st, k in q.stores_in(hr.node)), "effects %s" % (iv,), hr, 'D4')
@@ -396,3 +401,18 @@ def run (ctx):
     for nm, node, path in defs.use_before_def(f):
       if nm in ('t',): continue
       ctx.bad('R-DEF', f, "local `%s` used before assignment" % nm, "feasible path %s" % path, (mod, node), 'D7')
+
+
+def hub_pong_order (ctx, repo, sel, g2, mod, clause):
+  inc = g2.nodes_with_call(lambda c: call_name(c) == 'get' and '_incoming' in norm(c.func.value))
+  pong = g2.nodes_with_call(lambda c: call_name(c) in ('pongAll', 'pong_all', 'pong') and isinstance(c.func, ast.Attribute))
+  ctx.floor('select hub: wake-up clear and registration pick-up sites', len(inc) + len(pong), 2)
+  if not inc or not pong: return
+  before = all(any(g2.dominates(p, d, exc=False) for p in pong) for d in inc)
+  empt = g2.nodes_with_call(lambda c: call_name(c) in ('empty', 'qsize') and '_incoming' in norm(c.func.value))
+  after = [p for p in pong if any(p in g2.reachable(d, avoid=[g2.exit], exc=False) and not g2.dominates(p, d, exc=False) for d in inc + empt)]
+  good = before and not after
+  ctx.ob('R-ORDER', sel, "the wake-up pipe is cleared before new registrations are picked up, never after", good,
+         "pong dominates the drain of the incoming queue" if good else
+         "`%s` runs after the incoming queue was drained: a task registered between the last get() and this read has its wake-up byte swallowed - it is not in the hub's select set and nothing wakes the hub for it "
+         "(its I/O wait or sleep is noticed only at some unrelated later wake-up or the polling timeout)" % (after or pong)[0].text(40), (mod, (after or pong)[0].ast), clause)
